@@ -310,6 +310,22 @@ def replay(o, tree):
     cfg = o.get("cfg") or {}
     if cfg.get("kind") == "concat":
         return deferred_c.replay_concat(cfg, tree)
+    if o.get("unit", "").startswith("compile_file") or "inclusion-count" in o.get("label", ""):
+        import tempfile
+        import shutil
+        d = tempfile.mkdtemp(prefix="pyvc-c16-once-")
+        try:
+            open(os.path.join(d, "a.mac"), "w").write(".once\n.word 111\n")
+            open(os.path.join(d, "b.mac"), "w").write('.word 222\n.include "a.mac"\n.word 333\n')
+            open(os.path.join(d, "self.mac"), "w").write('.once\n.word 1\n.include "self.mac"\n.word 2\n')
+            jobs = [{"kind": "asm", "sources": [open(os.path.join(d, "a.mac")).read(), open(os.path.join(d, "b.mac")).read()], "names": [d + "/a.mac", d + "/b.mac"]},
+                    {"kind": "asm", "sources": [open(os.path.join(d, "self.mac")).read()], "names": [d + "/self.mac"]}]
+            res = driver.native(jobs, tree)
+        finally:
+            shutil.rmtree(d, ignore_errors=True)
+        exp = [["ok", "4900" "9200" "db00"], ["ok", "01000200"]]
+        obs = [[r["status"], r.get("code_hex")] for r in res]
+        return dict(jobs=None, experiment="a file with '.once' that is linked AND included later (and one that includes itself): its body appears once", expected=exp, observed=obs, reproduced=obs != exp)
     if cfg.get("kind") in ("linkfiles", "block"):
         # 1..3 linked files against their concatenation assembled as one file (position-dependent content in every file)
         sets = LINK_SETS
